@@ -25,6 +25,13 @@ def run(ctx):
         if name == "kinds":
             recs = ctx.read_ndjson(of)
             ctx.samples = [x["obs"]["text"] for x in recs[3:len(recs):len(recs) // 5]]
+    def corrupt(r):
+        a = r["obs"].get("ast")
+        if isinstance(a, dict):
+            a["Limit"] = "77"
+            return True
+        return False
+    vp.binding_selftest(ctx, "Judge_c01", "Judge_c01.cfg", ctx.path("obs_kinds.ndjson"), corrupt)
     return vp.case_finder
 
 
